@@ -2363,7 +2363,8 @@ pub fn unpack_columns(mut buf: &[u8]) -> Result<Vec<SqliteValueRef<'_>>, UnpackE
                 if buf.remaining() < intlen {
                     return Err(UnpackError::Abort);
                 }
-                let len = buf.get_int(intlen) as usize;
+                // lengths are packed in the minimal number of bytes, unsigned
+                let len = buf.get_uint(intlen) as usize;
                 if buf.remaining() < len {
                     return Err(UnpackError::Abort);
                 }
@@ -2380,7 +2381,9 @@ pub fn unpack_columns(mut buf: &[u8]) -> Result<Vec<SqliteValueRef<'_>>, UnpackE
                 if buf.remaining() < intlen {
                     return Err(UnpackError::Abort);
                 }
-                ret.push(SqliteValueRef(ValueRef::Integer(buf.get_int(intlen))));
+                // integers are packed in the minimal number of bytes with the high
+                // bytes being zero: anything shorter than 8 bytes is not negative
+                ret.push(SqliteValueRef(ValueRef::Integer(buf.get_uint(intlen) as i64)));
             }
             Some(ColumnType::Null) => {
                 ret.push(SqliteValueRef(ValueRef::Null));
@@ -2389,7 +2392,8 @@ pub fn unpack_columns(mut buf: &[u8]) -> Result<Vec<SqliteValueRef<'_>>, UnpackE
                 if buf.remaining() < intlen {
                     return Err(UnpackError::Abort);
                 }
-                let len = buf.get_int(intlen) as usize;
+                // lengths are packed in the minimal number of bytes, unsigned
+                let len = buf.get_uint(intlen) as usize;
                 if buf.remaining() < len {
                     return Err(UnpackError::Abort);
                 }
